@@ -46,13 +46,24 @@ func genC16Page(r *Rand, g *Gen, idx int) *c16Page {
 		for m := range p.markers {
 			before[m] = true
 		}
-		which := r.Intn(21)
+		which := r.Intn(23)
 		kindNames := []string{"page top level", "loop body", "component included k times", "two components", "side by side", "unreachable branch", "component inside a loop",
 			"on the loop element", "component reached directly and through a wrapper", "nested loops", "shorthand component tag", "component with <template> root", "v-if branch taken",
 			"slot content, component used twice", "same-name components in different directories", "else-branch inside a loop", "v-once on the <template> root of a component",
 			"default slot content placed at two outlets", "v-else after an empty loop inside a loop",
-			"named slot content placed at two outlets", "named slot content placed in a loop"}
+			"named slot content placed at two outlets", "named slot content placed in a loop",
+			"<template v-else v-once> inside a loop", "v-once elements nested in a v-once ancestor"}
 		switch which {
+		case 21: // a <template> else-branch carrying v-once, taken at every iteration
+			m := mk()
+			parts = append(parts, fmt.Sprintf(`<div v-for="item in items"><p v-if="off">never</p><template %s v-once><%s>%s</%s></template></div>`, Pick(r, []string{"v-else", `v-else-if="!off"`}), tag, m, tag))
+			p.markers[m] = func(items int, _ bool) int { return min1(items) }
+		case 22: // distinct v-once elements inside a v-once ancestor
+			ma, mb, mc := mk(), mk(), mk()
+			parts = append(parts, fmt.Sprintf(`<section v-once><h6>%s</h6><b v-once>%s</b><i v-once>%s</i></section>`, ma, mb, mc))
+			p.markers[ma] = func(int, bool) int { return 1 }
+			p.markers[mb] = func(int, bool) int { return 1 }
+			p.markers[mc] = func(int, bool) int { return 1 }
 		case 19: // v-once inside named slot content that the component places at two outlets
 			m := mk()
 			g.put("components/TwoNamed.vuego", `<div class="twon"><slot name="x"></slot><p>mid</p><slot name="x"></slot></div>`)
@@ -265,6 +276,13 @@ func genC16(seed uint64, run int, tier string) *RunSpec {
 	for _, p := range pages {
 		g.put(p.name, PageFile(p.body, p.fm))
 	}
+	// a page that admits v-once elements (its own and a component's) and then fails: renders of it are part of
+	// the histories, and what it admitted must not count for the renders after it ("every render starts afresh")
+	failName := ""
+	if r.Chance(40) && len(pages) > 0 {
+		failName = "pages/ofail.vuego"
+		g.put(failName, strings.Replace(pages[0].body, "</main>", `<p>{{ name | nosuchfilter }}</p></main>`, 1))
+	}
 	spec.Files = g.FileSpecs(1_700_000_000_000_000_000)
 	spec.Engine = randomEngine(r, g.Eng)
 	spec.Engine.BaseFill = &DataSpec{Shape: "map", Tag: "zzbzz", Items: r.Intn(4), Flag: r.Bool(), Variant: 1}
@@ -272,6 +290,15 @@ func genC16(seed uint64, run int, tier string) *RunSpec {
 	spec.Kernel.Map.Order = "asc"
 	n := 2 + r.Intn(5)
 	for i := 0; i < n; i++ {
+		if failName != "" && r.Chance(30) {
+			e := Pick(r, []string{"Vue.Render", "Load.Render", "RenderString", "Vue.RenderFragment", "Base.RenderString"})
+			op := OpSpec{Kind: "render", Entry: e, File: failName, Data: DataSpec{Shape: "map", Tag: fmt.Sprintf("zz%dzz", i), Items: r.Intn(4), Flag: true}, Writer: WriterSpec{FailAt: -1}, Reader: ReaderSpec{FailAfter: -1}, Expect: &Expect{Markers: map[string]int{"must-fail": 1}}}
+			if e == "RenderString" || e == "Base.RenderString" {
+				op.Source = g.Files[failName][0]
+			}
+			spec.Ops = append(spec.Ops, op)
+			continue
+		}
 		p := Pick(r, pages)
 		entry := Pick(r, append(append([]string{}, Entries...), BaseEntries...))
 		d := DataSpec{Shape: Pick(r, []string{"map", "map", "struct"}), Tag: fmt.Sprintf("zz%dzz", i), Items: r.Intn(4), Flag: r.Bool(), Variant: r.Intn(3)}
@@ -399,6 +426,9 @@ func execC16(spec *RunSpec) *Result {
 			res.addStat("c11_class_events", 1)
 			noteCrash(res, spec, i, op, o)
 			continue
+		}
+		if op.Expect != nil && op.Expect.Markers["must-fail"] == 1 {
+			continue // the deliberately failing page: only what it leaves behind matters
 		}
 		if o.IsErr {
 			res.violate("C16", "unexpected-error", "render error in a v-once program via "+op.Entry, "op %d (%s %s): %s", i, op.Entry, op.File, o.Err)
